@@ -264,6 +264,24 @@ def acquiring_fns(F):
     return acq
 
 
+def closure_acquires(F, key, acq, depth=0):
+    """a closure (or a closure it hands on) acquires the state lock: directly, or through a local function that does."""
+    c = F.fns.get(key)
+    if c is None or not c.built or depth > 3:
+        return False
+    b = c.built
+    if state_lock_sites(b):
+        return True
+    for blk, t in b.calls():
+        cal = F.local_callee(c, t)
+        if cal is not None and root_fn(F, cal).key in acq:
+            return True
+        for g_ in (t.get("garg_defs") or []):
+            if g_ and closure_acquires(F, c.crate + "::" + g_, acq, depth + 1):
+                return True
+    return False
+
+
 def r04_5(ctx):
     """no second acquisition of the state lock while a guard of it is held: both RwLocks are fair to writers, so a reader that
     asks again while a writer is queued behind its first guard waits for that writer, which waits for the first guard - the
@@ -289,6 +307,11 @@ def r04_5(ctx):
                 if c is not None and root_fn(F, c).key in acq and root_fn(F, c) is not root_fn(F, lb):
                     sites.append(blk)
             sites += state_lock_sites(b)
+            # ... or the call of a combinator that is handed a closure which acquires (`poll.map(|r| r.map(|_| self.read()))`)
+            for blk, t in b.calls():
+                for g_ in (t.get("garg_defs") or []):
+                    if g_ and closure_acquires(F, lb.crate + "::" + g_, acq):
+                        sites.append(blk)
             if not sites:
                 continue
             n += 1
